@@ -4,6 +4,8 @@
         -> ok <hex> | panic:<site>
     gguf-dec <maxArray> <budget|-> <hex>
         -> ok <summary> | err:eof | err:invalid | panic:<site> | alloc:<site>
+    gguf-dec-at <maxArray> <start> <hex>
+        -> the same for a decode that starts at file offset <start> of the given bytes
 -/
 import OllamaVerif.Model.Gguf
 import Oracle.Util
@@ -28,6 +30,16 @@ def handle (toks : List String) : Option String :=
       let budget := if b == "-" then none else b.toNat?
       let bs ← hex
       pure (match decode bs maxA budget with
+        | .ok d => showDecoded d
+        | .error e => showErr e)) rest
+  | "gguf-dec-at" :: rest =>
+    -- Decode with the reader standing at file offset <start> (the second and later models of an upload:
+    -- positions and alignment padding are absolute file offsets)
+    runTP (do
+      let maxA ← int
+      let start ← nat
+      let bs ← hex
+      pure (match decodeFrom ⟨bs.drop start, start⟩ maxA none with
         | .ok d => showDecoded d
         | .error e => showErr e)) rest
   | _ => none
